@@ -31,7 +31,12 @@ OPEN_STATEMENTS = [
     'inner product of the polynomial representation, all matrix elements, unbounded occupation (hc_boson_adjoint, '
     'hc_boson_term_sound); hc for QuadOperator: the stored key denotes the reversed word (hc_quad_term_sound) - that '
     'q, p are self-adjoint needs the L2 inner product, which the polynomial Spec does not have (oracle: truncated '
-    'matrices); injectivity of the key map (no overwriting between terms) is Corr + oracle only',
+    'matrices); injectivity of the boson key map (no overwriting between terms) and the operator-level adjointness of '
+    'the Model function are proved (hc_boson_key_injective, hc_boson_terms, hc_boson_operator_adjoint); the quad key map '
+    'is proved injective on stored terms (hc_quad_terms); operator-level adjointness is also proved for Fermion and Qubit '
+    'operators (hc_fermion_operator_adjoint, hc_qubit_operator_adjoint)',
+    'commutator_def_ring (commutator = AB - BA, anticommutator = AB + BA in every ring interpretation, tolerance 0, all '
+    'FermionOperators) and dc_commutator_eq_generic (shortcut = generic path under the contract) are proved; '
     'commutator_def / anticommutator_def are proved for every term functional in the exact regime of the in-place '
     'addition (hypothesis ExactAdd: no non-zero coefficient below EQ_TOLERANCE is pruned); double_commutator_def is '
     'proved in every ring interpretation satisfying the CAR and on the Fock space of the Spec (generic path; '
